@@ -20,23 +20,40 @@ In2(d) == [k \in 1..Total2(d) |-> <<(k - 1) \div d[2], (k - 1) % d[2]>>]
 In3(d) == [k \in 1..Total3(d) |-> <<(k - 1) \div (d[2] * d[3]), ((k - 1) \div d[3]) % d[2], (k - 1) % d[3]>>]
 Idx(n) == [k \in 1..n |-> n - k]            \* indices, descending
 
+\* every way of writing the loop over the iterators (IndexMaps: WalkFor ... PreIncValueIndex); the styles that begin
+\* with ++it are only run on non-empty sequences (arg.nonempty), their expectation is empty otherwise
+WalkExp(d) ==
+  LET b == ItBegin(d)  e == ItEnd(d)  n == TotalOf(d) IN
+  [walk_range_for |-> WalkFor(b, e), walk_for_pre |-> WalkFor(b, e), walk_std_for_each |-> WalkFor(b, e),
+   walk_for_post |-> WalkForPost(b, e),
+   walk_while_pre |-> IF n >= 1 THEN WalkWhilePre(b, e) ELSE <<>>,
+   walk_do_while_pre |-> IF n >= 1 THEN WalkDoWhile(b, e) ELSE <<>>,
+   walk_deref_preinc |-> IF n >= 1 THEN WalkDerefPre(b, n - 1) ELSE <<>>,
+   preinc_equals_it |-> PreIncEqualsIt(b, n), preinc_value_index |-> PreIncValueIndex(b, n),
+   begin_is_end |-> ItEq(b, e), begin_ne_end |-> ItNe(b, e)]
+\* the VALUE of the postfix increment (kept in cases of their own: see c17.py)
+PostExp(d) ==
+  LET b == ItBegin(d)  e == ItEnd(d)  n == TotalOf(d) IN
+  [walk_deref_postinc |-> WalkDerefPost(b, e), postinc_value_is_old |-> PostIncValueIsOld(b, n), postinc_value_index |-> PostIncValueIndex(b, n)]
+IterPostCase(d) == [a |-> IF Len(d) = 2 THEN "IterPost2" ELSE "IterPost3", cls |-> Class(TotalOf(d)), arg |-> [d |-> d], exp |-> PostExp(d)]
+
 Seq2Case(d) ==
   [a |-> "Seq2", cls |-> Class(Total2(d)),
-   arg |-> [d |-> d, coords |-> In2(d), idxs |-> Idx(Total2(d))],
+   arg |-> [d |-> d, coords |-> In2(d), idxs |-> Idx(Total2(d)), nonempty |-> (Total2(d) >= 1)],
    exp |-> [total |-> Total2(d), dims |-> d,
             flatten |-> [k \in 1..Total2(d) |-> Flatten2(d, In2(d)[k])],
             reshape |-> [k \in 1..Total2(d) |-> Reshape2(d, Idx(Total2(d))[k])],
             iter |-> IterSeq2(d), iter_manual |-> IterSeq2(d),
-            iter_index |-> [k \in 1..Total2(d) |-> k - 1]]]
+            iter_index |-> [k \in 1..Total2(d) |-> k - 1]] @@ WalkExp(d)]
 
 Seq3Case(d) ==
   [a |-> "Seq3", cls |-> Class(Total3(d)),
-   arg |-> [d |-> d, coords |-> In3(d), idxs |-> Idx(Total3(d))],
+   arg |-> [d |-> d, coords |-> In3(d), idxs |-> Idx(Total3(d)), nonempty |-> (Total3(d) >= 1)],
    exp |-> [total |-> Total3(d), dims |-> d,
             flatten |-> [k \in 1..Total3(d) |-> Flatten3(d, In3(d)[k])],
             reshape |-> [k \in 1..Total3(d) |-> Reshape3(d, Idx(Total3(d))[k])],
             iter |-> IterSeq3(d), iter_manual |-> IterSeq3(d),
-            iter_index |-> [k \in 1..Total3(d) |-> k - 1]]]
+            iter_index |-> [k \in 1..Total3(d) |-> k - 1]] @@ WalkExp(d)]
 
 Arr3Case(d) ==
   [a |-> "Arr3", cls |-> Class(Total3(d)),
@@ -90,6 +107,7 @@ ASSUME ndJsonSerialize(IOEnv.OUT \o "-seq3", SetToSeq(Cases3))
 ASSUME ndJsonSerialize(IOEnv.OUT \o "-arr3", SetToSeq(CasesA))
 ASSUME ndJsonSerialize(IOEnv.OUT \o "-foreach", SetToSeq(CasesF))
 ASSUME ndJsonSerialize(IOEnv.OUT \o "-interleave", SetToSeq(CasesI))
+ASSUME ndJsonSerialize(IOEnv.OUT \o "-iterpost", SetToSeq({IterPostCase(d) : d \in E2 \cup E3}))
 ASSUME PrintT(<<"cases", Cardinality(Cases2), Cardinality(Cases3), Cardinality(CasesA), Cardinality(CasesF)>>)
 
 VARIABLE x
